@@ -137,6 +137,15 @@ def classify(F, f, l):
                 # a loop header reached again from the Err arm (e.g. `continue`) also swallows the error
                 back = any(b in f.reachable(s) for s in [et]) and f.in_cycle(b)
                 rets_err = [rb for rb, kk, tt in paths.ret_assigns(f) if kk in ('err', 'residual', 'call', 'other') and rb in reach]
+                # an error return built on the Err arm carries the original error (`Err(e.into())`, `Err(e)`): replacing a storage
+                # error by a constant of the crate's own (`MapFull => DatabaseFull`) reports something else than what failed
+                # (the one documented translation is KeyExist => InvalidItemAppend of `append_item`, decided by C19's R-APPEND)
+                defblocks = [dd[1] for dd in f.defs().get(l, []) if dd[0] == 'call']
+                rewritten = [tt for rb, kk, tt in paths.ret_assigns(f) if kk == 'err' and rb in reach and defblocks
+                             and not any(paths.mentions_call(tt, db_) for db_ in defblocks)
+                             and not (f.path.endswith('::append_item') and paths.err_variant(tt) == 'InvalidItemAppend')]
+                if rewritten:
+                    bad.append(('arm', 'Err arm returns another error (%s) than the one it received' % (paths.err_variant(rewritten[0]) or show(rewritten[0])[:40]), None))
                 if goods and not _all_paths_hit(f, et, goods, rets_err):
                     bad.append(('arm', 'Err arm reaches a success return', None))
                 elif back and not rets_err:
@@ -195,7 +204,7 @@ def r_err(ctx):
                 ctx.bad(rule, key, where, 'the `Result<_, %s>` produced by `%s` in `%s` is never propagated (dropped or ignored): a storage/cancellation error would be lost' % (e, prod, f.path))
             else:
                 what = '; '.join('%s via `%s`' % (b[0], b[1]) for b in detail)
-                ctx.bad(rule, key, where, 'the `Result<_, %s>` produced by `%s` in `%s` is swallowed (%s): the build could report success over a half-built forest' % (e, prod, f.path, what))
+                ctx.bad(rule, key, where, 'the `Result<_, %s>` produced by `%s` in `%s` is swallowed or rewritten (%s): the build could report success over a half-built forest, or report another failure than the one that happened' % (e, prod, f.path, what))
     ctx.floor(rule, 'Result<_, storage/cancel error> values', n, 450)
     ctx.floor(rule, 'cancellation polls', polls, 15)
 
